@@ -46,6 +46,52 @@ def junction_orphan(c):
     return False
 
 
+def fans_out(models, src, dst):
+    """does the join path from `src` to `dst` contain a hop onto a model with several rows per row of the previous one
+    (parent -> child, or into / out of a junction)? decided from the declared relationships alone"""
+    child_of = set()      # (child, parent): child holds the foreign key
+    for m in models.values():
+        for r in m.get("rels", []):
+            if r["type"] == "many_to_one":
+                child_of.add((m["name"], r["name"]))
+            elif r["type"] == "one_to_many":
+                child_of.add((r["name"], m["name"]))
+            elif r["type"] == "one_to_one":
+                pass
+            elif r["type"] == "many_to_many":
+                j = r.get("through")
+                if j:
+                    child_of.add((j, m["name"]))
+                    child_of.add((j, r["name"]))
+                else:
+                    return True
+    adj = {}
+    for a, b in child_of:
+        adj.setdefault(a, set()).add(b)
+        adj.setdefault(b, set()).add(a)
+    for m in models.values():
+        for r in m.get("rels", []):
+            if r["type"] == "one_to_one":
+                adj.setdefault(m["name"], set()).add(r["name"])
+                adj.setdefault(r["name"], set()).add(m["name"])
+    prev, todo = {src: None}, [src]
+    while todo:
+        x = todo.pop(0)
+        for y in sorted(adj.get(x, ())):
+            if y not in prev:
+                prev[y] = x
+                todo.append(y)
+    if dst not in prev:
+        return True       # no path known to this helper: stay conservative
+    y = dst
+    while prev[y] is not None:
+        x = prev[y]
+        if (y, x) in child_of:      # hop x -> y lands on a child of x
+            return True
+        y = x
+    return False
+
+
 def classify(c):
     """known-finding class of a case from the input alone"""
     q, models = c["query"], {m["name"]: m for m in c["models"]}
@@ -63,7 +109,7 @@ def classify(c):
     meas_cols = {x["sql"]["n"] for x in models[mm]["measures"] if x.get("sql") and x["sql"].get("k") == "col"}
     has_null = any(r[t["cols"].index(cn)] is None for r in t["rows"] for cn in meas_cols if cn in t["cols"])
     others = [m for m in dict.fromkeys(order) if m != base]
-    if mm != base and others:
+    if mm != base and others and any(fans_out(models, mm, o) for o in dict.fromkeys(order) if o != mm):
         return "F3-nonbase-metric-fanout"
     if has_null and others:
         return "F2-null-measure-symmetric"
